@@ -3,6 +3,7 @@ package main
 import (
 	"encoding/json"
 	"fmt"
+	"math"
 	"math/rand"
 	"os"
 	"path/filepath"
@@ -11,7 +12,10 @@ import (
 	"strings"
 
 	asv1 "github.com/pingcap/advanced-statefulset/client/apis/apps/v1"
+	appsv1 "k8s.io/api/apps/v1"
 	corev1 "k8s.io/api/core/v1"
+	metav1 "k8s.io/apimachinery/pkg/apis/meta/v1"
+	"k8s.io/apimachinery/pkg/runtime"
 
 	"verif/harness/mon"
 	"verif/harness/refspec"
@@ -225,6 +229,26 @@ func runC15(ctx *Ctx) *Result {
 				w.Srv.Seed(simapi.Pods, world.NewPod(po))
 				c.Pods = append(c.Pods, fmt.Sprintf("%s/%s", po.Name, po.Phase))
 				res.Stats["populations_with_extreme_ordinals"]++
+			}
+		}
+		// ControllerRevisions nobody vouches for (the API admits any JSON value, or none, as data): selected by
+		// app=web, orphaned or owned by the set, numbered below, between and above the set's own revisions.
+		// Decided by the case index, so the rest of the generated input is what it was without them.
+		if i%4 == 0 {
+			shapes := []string{"", "{}", "null", `{"spec":{}}`, "[]", `"x"`, "7", `{"spec":{"template":{"$patch":"replace"}}}`}
+			for k := 0; k < 1+(i/4)%2; k++ {
+				raw := shapes[(i/8+3*k)%len(shapes)]
+				rev := &appsv1.ControllerRevision{ObjectMeta: metav1.ObjectMeta{Name: fmt.Sprintf("web-junk-%d", k), Namespace: world.NS, Labels: map[string]string{"app": "web"}},
+					Revision: []int64{0, 1, 7, math.MaxInt64, -3, 2}[(i/4+k)%6]}
+				if raw != "" {
+					rev.Data = runtime.RawExtension{Raw: []byte(raw)}
+				}
+				if (i/4)%3 == 0 {
+					rev.OwnerReferences = []metav1.OwnerReference{*world.SetOwnerRef(stored)}
+				}
+				w.Srv.Seed(simapi.Revisions, rev)
+				c.Pods = append(c.Pods, fmt.Sprintf("revision %s data=%q number=%d owned=%v", rev.Name, raw, rev.Revision, rev.OwnerReferences != nil))
+				res.Stats["populations_with_junk_revisions"]++
 			}
 		}
 		if !deliver("add") {
